@@ -505,4 +505,19 @@ theorem tdiv_inR (t : ITy) (hw : 1 ≤ t.w) (x y : Int) (hx : t.inR x = true) (h
       have : x.natAbs / y.natAbs ≤ x.natAbs / 2 := Nat.div_le_div_left hy2 (by decide)
       omega
 
+/-! ## single-bit access -/
+
+
+theorem bitPosPre_ok (w pos : Nat) (hw31 : w < 2^31) (hpos : pos < w) : bitPosPre w pos = true := by
+  unfold bitPosPre
+  have : i32.inR (pos : Int) = true := by
+    rw [inR_iff]; unfold i32 ITy.min ITy.max; simp; omega
+  rw [conv_of_inR i32 (by decide) _ this]; simp; omega
+
+theorem oneShl_ok (w pos : Nat) (hpos : pos < w) : oneShl w pos = .ok (2^pos) := by
+  unfold oneShl
+  have := pw_ge w
+  simp only [show pos < pw w by omega, if_true]
+  rw [Nat.shiftLeft_eq, Nat.one_mul, Nat.mod_eq_of_lt (Nat.pow_lt_pow_right (by decide) hpos)]
+
 end Tetl.C14
